@@ -8,8 +8,11 @@ Streams (model = Model/C01.v evaluated by vm_compute; impl = the real aiocoap ob
   ext_field     _read_extended_field_value / _write_extended_field_value vs Gen/options_ext.v
   value         OptionNumber(n).create_option(decode=raw), option.encode() vs create_option_decode / option_encode
   utf8          bytes.decode("utf-8") / str.encode("utf-8") vs Model/C01Utf8.v
-  transport     GenericMessageInterface._received_datagram (generic_udp.py:31-38) on mutants: oracle only — the datagram is dispatched
-                or logged and dropped, nothing is raised (the anchors "transports drop only UnparsableMessage")
+  transport     GenericMessageInterface._received_datagram (generic_udp.py:31-38) and MessageInterfaceUDP6.datagram_msg_received
+                (udp6.py:603-640, on a stand-in for self) vs received_datagram with the except clause generated from each site:
+                dispatched / logged-and-dropped / escaped; transport_oracle = the same on every 7th mutant, oracle only
+  encode_oracle structured messages through Message.encode/decode + oracle only: uint/content-format/block values of exactly
+                12/13/268/269/65803/65804 bytes, option objects of another class, inexpressible deltas / lengths
 The oracle is an independent reading of RFC 7252 section 3 / RFC 3629 written in this file (rfc_* functions below).
 """
 import struct, sys
@@ -37,6 +40,10 @@ def digest(b):
 def bv(b):
     b = list(b)
     return b if len(b) <= BIG else {"D": digest(b)}
+def ix(spec):
+    """integer-spec -> int: a plain int, or {"p256": L, "sub": s} = 256**L - s (huge values without huge numerals in the input)"""
+    if isinstance(spec, dict): return 256 ** spec["p256"] - spec["sub"]
+    return spec
 def zv(n):
     """integers above 2^200 are shown as [0, floor(log2 n), n mod 1000000007] on both sides"""
     return [n] if n < 2 ** 200 else [0, n.bit_length() - 1, n % 1000000007]
@@ -98,15 +105,18 @@ def rfc_utf8_decode(b):
 
 def rfc_uint(n):
     if n < 0: raise NotRepresentable("negative uint")
+    if n >= 1 << 2048:                      # big values: through the hexadecimal numeral (the digit loop is quadratic)
+        h = "%x" % n
+        return bytes.fromhex(h if len(h) % 2 == 0 else "0" + h)
     out = []
     while n: out.append(n % 256); n //= 256
     return bytes(reversed(out))
 def rfc_value(kind, val):
     if kind == "O": return bytes(bx(val))
     if kind == "S": return rfc_utf8_encode(bx(val))
-    if kind in ("U", "C"): return rfc_uint(val)
+    if kind in ("U", "C"): return rfc_uint(ix(val))
     if kind == "B":
-        num, more, szx = val
+        num, more, szx = val; num = ix(num)
         if num < 0 or not (0 <= szx <= 7): raise NotRepresentable("block")
         return rfc_uint(num * 16 + (8 if more else 0) + szx)
     raise NotRepresentable(kind)
@@ -115,17 +125,23 @@ def rfc_ext(v):
     if v <= 12: return v, b""
     if v <= 268: return 13, bytes([v - 13])
     return 14, bytes(divmod(v - 269, 256))
-def rfc_encode(m):
+class Inexpressible(NotRepresentable): pass      # header and values are legal, but a delta / value length is outside 0..65804
+def rfc_encode(m, any_class=False):
     """section 3 encoder of a structured message (options in insertion order; the wire order is by number, stable).
-    Raises NotRepresentable when the message is outside what section 3 can carry / the value formats allow."""
+    Raises NotRepresentable when the message is outside what section 3 can carry / the value formats allow (Inexpressible when the
+    only obstacle is a delta or value length outside 0..65804).  any_class: accept a value of a class other than the one the
+    RFC tables give to the option number (the bytes are still defined; the round trip is not)."""
     if not (0 <= m["mtype"] <= 3 and 0 <= m["code"] <= 255 and 0 <= m["mid"] <= 0xFFFF): raise NotRepresentable("header")
     token = bytes(bx(m["token"]))
     if len(token) > 8: raise NotRepresentable("token")
     out = bytearray([0x40 | (m["mtype"] << 4) | len(token), m["code"], m["mid"] >> 8, m["mid"] & 0xFF]) + token
-    prev = 0
+    prev = 0; late = None
+    values = []
     for n, kind, val in sorted(m["opts"], key=lambda o: o[0]):
-        if kind != rfc_format(n): raise NotRepresentable("option %d holds a %s value" % (n, kind))
-        v = rfc_value(kind, val)
+        if kind != rfc_format(n) and not any_class: raise NotRepresentable("option %d holds a %s value" % (n, kind))
+        values.append((n, rfc_value(kind, val)))                       # every value must be legal before lengths are judged
+    for n, v in values:
+        if not (0 <= n - prev <= EXT_MAX and len(v) <= EXT_MAX): raise Inexpressible("delta %d / length %d" % (n - prev, len(v)))
         dn, de = rfc_ext(n - prev); ln, le = rfc_ext(len(v))
         out += bytes([dn * 16 + ln]) + de + le + v
         prev = n
@@ -139,21 +155,23 @@ def rfc_interp(n, raw):
     if f == "S":
         s = rfc_utf8_decode(raw)
         return None if s is None else [n, 1, [], bv(s)]
-    v = 0
-    for x in raw: v = v * 256 + x
+    if len(raw) > 256: v = int(bytes(raw).hex(), 16)
+    else:
+        v = 0
+        for x in raw: v = v * 256 + x
     if f == "U": return [n, 2, zv(v), []]
     if f == "C": return [n, 4, zv(v), []]
     return [n, 3, zv(v // 16) + [(v // 8) % 2, v % 8], []]
-def rfc_parse(data):
-    """section 3 parser: canonical message view with typed options, "not-utf8" when the datagram is well-formed but a string
-    option is not UTF-8, None when the datagram is not well-formed under section 3"""
+def rfc_parse_raw(data):
+    """section 3 parser with uninterpreted option values: [type, code, mid, token, [[number, value bytes]], payload], or None when the
+    datagram is not well-formed under section 3"""
     if len(data) < 4: return None
     b0 = data[0]
     if b0 // 64 != 1: return None
     t = (b0 // 16) % 4; tkl = b0 % 16
     if tkl > 8 or len(data) < 4 + tkl: return None
     code = data[1]; mid = data[2] * 256 + data[3]
-    token = data[4:4 + tkl]; i = 4 + tkl; number = 0; opts = []; bad_string = False; payload = b""
+    token = data[4:4 + tkl]; i = 4 + tkl; number = 0; opts = []; payload = b""
     while i < len(data):
         if data[i] == 0xFF:
             payload = data[i + 1:]
@@ -172,11 +190,18 @@ def rfc_parse(data):
             vals.append(nib)
         number += vals[0]
         if i + vals[1] > len(data): return None
-        o = rfc_interp(number, data[i:i + vals[1]]); i += vals[1]
-        if o is None: bad_string = True
-        opts.append(o)
-    if bad_string: return "not-utf8"
-    return [t, code, mid, bv(token), opts, bv(payload)]
+        opts.append([number, bytes(data[i:i + vals[1]])]); i += vals[1]
+    return [t, code, mid, bytes(token), opts, bytes(payload)]
+def raw_view(r):
+    return None if r is None else [r[0], r[1], r[2], bv(r[3]), [[n, bv(v)] for n, v in r[4]], bv(r[5])]
+def rfc_parse(data):
+    """section 3 parser: canonical message view with typed options, "not-utf8" when the datagram is well-formed but a string
+    option is not UTF-8, None when the datagram is not well-formed under section 3"""
+    r = rfc_parse_raw(data)
+    if r is None: return None
+    opts = [rfc_interp(n, v) for n, v in r[4]]
+    if any(o is None for o in opts): return "not-utf8"
+    return [r[0], r[1], r[2], bv(r[3]), opts, bv(r[5])]
 
 def ext_max_in_datagram(data):
     """lenient walk over the options of a datagram: does some option delta equal 65804, or would some option value,
@@ -212,9 +237,9 @@ def expected_view(m):
     for n, kind, val in sorted(m["opts"], key=lambda o: o[0]):
         if kind == "O": opts.append([n, 0, [], bv(bx(val))])
         elif kind == "S": opts.append([n, 1, [], bv(bx(val))])
-        elif kind == "U": opts.append([n, 2, zv(val), []])
-        elif kind == "C": opts.append([n, 4, zv(val), []])
-        else: opts.append([n, 3, zv(val[0]) + [1 if val[1] else 0, val[2]], []])
+        elif kind == "U": opts.append([n, 2, zv(ix(val)), []])
+        elif kind == "C": opts.append([n, 4, zv(ix(val)), []])
+        else: opts.append([n, 3, zv(ix(val[0])) + [1 if val[1] else 0, val[2]], []])
     return [m["mtype"], m["code"], m["mid"], bv(bx(m["token"])), opts, bv(bx(m["payload"]))]
 def has_ext_max(view_or_msg_opts):
     """some option delta or value length is exactly 65804 (needs the raw lengths: computed on structured options)"""
@@ -245,18 +270,14 @@ def make_option(n, kind, val):
     from aiocoap import optiontypes as ot
     cls = {"O": ot.OpaqueOption, "S": ot.StringOption, "U": ot.UintOption, "B": ot.BlockOption, "C": ot.ContentFormatOption}[kind]
     number = OptionNumber(n)
+    if kind == "O": v = bytes(bx(val))
+    elif kind == "S": v = "".join(chr(c) for c in bx(val))
+    elif kind == "B": v = (ix(val[0]), bool(val[1]), val[2])
+    else: v = ix(val)
     if number.format is cls:
-        # the path applications use: OptionNumber.create_option(value=...)
-        if kind == "O": v = bytes(bx(val))
-        elif kind == "S": v = "".join(chr(c) for c in bx(val))
-        elif kind == "B": v = (val[0], bool(val[1]), val[2])
-        else: v = val
-        return number.create_option(value=v)
-    o = cls(number)                       # a value of another class under this number (not legal for the format)
-    if kind == "O": o.value = bytes(bx(val))
-    elif kind == "S": o.value = "".join(chr(c) for c in bx(val))
-    elif kind == "B": o.value = (val[0], bool(val[1]), val[2])
-    else: o.value = val
+        return number.create_option(value=v)      # the path applications use: OptionNumber.create_option(value=...)
+    o = cls(number)                               # an option object of another class under this number
+    o.value = v
     return o
 
 def build_message(m):
@@ -363,6 +384,26 @@ def g_message(rng, big_ok=False):
     if plen and isinstance(payload, list) and rng.random() < 0.2: payload[0] = 0xFF
     return {"mtype": rng.randint(0, 3), "code": code, "mid": mid, "token": g_bytes(rng, rng.randint(0, 8)),
             "opts": g_options(rng, big_ok), "payload": payload}
+TYPED_LEN_BOUNDARY = [12, 13, 14, 267, 268, 269, 270, 65803, 65804]
+def g_big_typed_message(rng):
+    """uint / content-format / block values whose encodings are exactly L bytes, L on the extended-field boundaries
+    (oracle-only stream: a 65 kB integer costs minutes in vm_compute and milliseconds in CPython)"""
+    m = g_message(rng); m["opts"] = [o for o in m["opts"] if not isinstance(o[2], dict)][:rng.randint(0, 3)]
+    r = rng.random()      # 65 kB integers cost ~50 ms each in CPython: about one case in seven
+    L = rng.choice(TYPED_LEN_BOUNDARY[:7]) if r < 0.85 else rng.choice(TYPED_LEN_BOUNDARY[7:]) if r < 0.96 else rng.choice([65805, 65806])   # the last two: inexpressible
+    kind = rng.choice("UCB")
+    n = rng.choice([k for k, f in RFC_FORMATS.items() if f == kind])
+    hi = rng.random() < 0.5                      # 256**L - 1 (all FF) or 256**(L-1) (01 00 .. 00): both need exactly L bytes
+    spec = {"p256": L, "sub": 1} if hi else {"p256": L - 1, "sub": 0}
+    if kind == "B":
+        # as_integer = num*16 + m*8 + szx must need exactly L bytes: num = (256**L - 1) >> 4 or 256**(L-1) >> 4 (L >= 2)
+        num = ix(spec) >> 4
+        val = [num, rng.random() < 0.5, rng.randint(0, 7)] if L < 300 else [{"p256": L - 1, "sub": 0}, rng.random() < 0.5, rng.randint(0, 7)]
+        # (for long values num = 256**(L-1): as_integer = 0x10 00 .. 00, L bytes as well)
+    else: val = spec if L >= 300 else ix(spec)
+    m["opts"] = [o for o in m["opts"] if o[0] != n] + [[n, kind, val]]
+    if rng.random() < 0.3: rng.shuffle(m["opts"])
+    return m
 def g_illegal_message(rng, big_ok=True):
     """outside the property's domain (correspondence only): what does encode() do with it?"""
     m = g_message(rng)
@@ -470,9 +511,9 @@ def view_to_message(v):
 class C01(fw.Property):
     id = "C01"
     coq_props = "Props/C01.v"
-    gen_jobs = ["options_ext", "optiontypes_min", "optnum_table", "decode_handlers"]
+    gen_jobs = ["options_ext", "optiontypes_min", "optnum_table", "decode_handlers", "c01_shapes"]
     model_imports = ["Verif.Gen.options_ext", "Verif.Gen.optiontypes_min", "Verif.Gen.optnum_table", "Verif.Model.C01Types",
-                     "Verif.Model.C01Utf8", "Verif.Model.C01", "Verif.Model.C01Rfc"]
+                     "Verif.Model.C01Utf8", "Verif.Model.C01", "Verif.Model.C01Rfc", "Verif.Model.C01Views", "Verif.Gen.decode_handlers"]
     quick_budget = 480
     thorough_budget = 15000
     design_ref = "DESIGN.md section 6"
@@ -493,7 +534,11 @@ class C01(fw.Property):
                     "Model/C01Rfc.v and the rfc_* functions of harness/props/c01.py are two independent readings of RFC 7252 section 3 (compared with each other on the encode stream)"]
     assumptions = ["Python bytes objects hold integers 0..255 (hypothesis bytes_ok of the theorems)",
                    "a str is a list of code points; CPython's strict UTF-8 codec = RFC 3629 (checked by correspondence, not proved)",
-                   "Message.mtype is a member of Type (0..3): Type() rejects anything else before a Message exists"]
+                   "Message.mtype is a member of Type (0..3): Type() rejects anything else before a Message exists",
+                   "'a message that itself round-trips' is read after re-labelling the parsed message's direction to OUTGOING: Message.encode asserts "
+                   "direction == OUTGOING (message.py:362), so encode() of a message exactly as parsed raises AssertionError (observed on the decode_oracle stream; not a codec matter)",
+                   "the round trip (sentence 2) is about option objects of the class registered for their number; an object of another class (application-defined "
+                   "UintOption under an unregistered number) is serialised to the RFC's bytes (C01_encode_is_rfc_any_class) and parsed back as the number's class"]
     level_text = ("Theorems (closed under the global context) over a model of Message.encode/decode, Options.encode/decode and the option value codecs whose "
                   "extended-field kernels, _to_minimum_bytes and format table are regenerated from source on every run: encode = independent RFC 7252 section 3 encoder "
                   "on every well-formed message, decode(encode(m)) = m with options in option_list order, every RFC-well-formed datagram parses to the RFC's fields, "
@@ -517,6 +562,14 @@ class C01(fw.Property):
             else: yield "encode", g_ext_max_message(rng, None if thorough else False)
         yield "encode", g_ext_max_message(rng, True)
         yield "encode", g_ext_max_message(rng, False)
+        # ---- encode, implementation + oracle only (no vm_compute): many more messages, typed values on every length boundary,
+        #      option objects of another class than their number's, deltas / lengths section 3 cannot express
+        for k in range(n * 6 if not thorough else n * 3):
+            r = rng.random()
+            if r < 0.45: yield "encode_oracle", g_message(rng, rng.random() < 0.02)
+            elif r < 0.75: yield "encode_oracle", g_big_typed_message(rng)
+            elif r < 0.95: yield "encode_oracle", g_illegal_message(rng, rng.random() < 0.3)
+            else: yield "encode_oracle", g_ext_max_message(rng, rng.random() < 0.3)
         # ---- decode: valid (oracle-encoded), mutated, random, handcrafted
         hand = handcrafted_datagrams()
         for d in hand: yield "decode", {"data": d}
@@ -542,15 +595,25 @@ class C01(fw.Property):
         else:
             for d in rng.sample(allm, min(n_mut, len(allm))): yield "decode_mut", {"data": d}
         for d in allm: yield "decode_oracle", {"data": d}
-        for d in hand + allm[::7]: yield "transport", {"data": d}
-        # all 255 substitutions: two seeds in quick, the nine fixed seeds (first 64 bytes) in thorough
+        # the receive paths (generic_udp._received_datagram, udp6.datagram_msg_received): a sample through the model, the rest oracle-only
+        tr = hand + allm[::7]
+        for j, d in enumerate(rng.sample(tr, min(len(tr), max(8, n // 12)))): yield "transport", {"site": ["generic_udp", "udp6"][j % 2], "data": d}
+        for j, d in enumerate(tr): yield "transport_oracle", {"site": ["generic_udp", "udp6"][j % 2], "data": d}
+        # all 255 substitutions and all 256 one-byte insertions: two seeds (first 64 bytes) in quick; the nine fixed seeds in thorough
+        # (substitution at every byte, insertion at the first 64 positions and the last 16)
         for sd in (seeds[:9] if thorough else [seeds[1], seeds[4]]):
-            for i, b in enumerate(sd[:64]):
+            for i, b in enumerate(sd if thorough else sd[:64]):
                 for x in range(256):
                     if x != b: yield "decode_oracle", {"data": sd[:i] + [x] + sd[i + 1:]}
+            for i in sorted(set(list(range(min(64, len(sd) + 1))) + list(range(max(0, len(sd) - 15), len(sd) + 1)))):
+                for x in range(256): yield "decode_oracle", {"data": sd[:i] + [x] + sd[i:]}
         for k in range(n * 4 if not thorough else n * 2):
             base = rfc_encode(g_message(rng))
             yield "decode_oracle", {"data": random_mutation(rng, base) if k % 4 else list(base)}
+        # datagrams up to the 64 kB datagram size, untruncated, and mutations of them
+        for k in range(12 if not thorough else 120):
+            base = rfc_encode(g_message(rng, True))
+            yield "decode_oracle", {"data": random_mutation(rng, base) if k % 3 else list(base)}
         # ---- kernels
         ext_table = [0, 1, 12, 13, 14, 15, 267, 268, 269, 270, 65802, 65803, 65804, 65805, 65806, 70000, -1, -13]
         for k in range(n_ext):
@@ -589,7 +652,7 @@ class C01(fw.Property):
         import aiocoap
         from aiocoap import Message
         from aiocoap.message import Direction
-        if stream == "encode":
+        if stream in ("encode", "encode_oracle"):
             res = {}
             try: res["rfc"] = bv(rfc_encode(inp))
             except NotRepresentable: res["rfc"] = None
@@ -606,8 +669,15 @@ class C01(fw.Property):
             data = bytes(bx(inp["data"]))
             try: m = Message.decode(data)
             except Exception as e:
-                return {"decoded": exn(e), "reencoded": exn(e), "redecoded": exn(e)}
+                res = {"decoded": exn(e), "reencoded": exn(e), "redecoded": exn(e)}
+                if stream != "decode_oracle": res["rfc_raw"] = raw_view(rfc_parse_raw(data))
+                return res
             res = {"decoded": msg_view(m)}
+            if stream != "decode_oracle": res["rfc_raw"] = raw_view(rfc_parse_raw(data))
+            else:
+                # (observation, not modelled) a parsed message is labelled INCOMING and refuses to be encoded as it is
+                try: m.encode(); res["reencode_as_parsed"] = "ok"
+                except Exception as e: res["reencode_as_parsed"] = exn(e)
             m.direction = Direction.OUTGOING
             try: enc = m.encode()
             except Exception as e:
@@ -617,22 +687,34 @@ class C01(fw.Property):
             try: res["redecoded"] = msg_view(Message.decode(enc))
             except Exception as e: res["redecoded"] = exn(e)
             return res
-        if stream == "transport":
-            from aiocoap.transports.generic_udp import GenericMessageInterface
+        if stream in ("transport", "transport_oracle"):
             got = []; logged = []
             class Mman:
                 def dispatch_message(self, m): got.append(msg_view(m))
                 def dispatch_error(self, e, a): got.append("error")
             class Log:
-                def warning(self, *a, **k): logged.append("warning")
-                def info(self, *a, **k): logged.append("info")
+                def warning(self, fmt, *a, **k): logged.append(fmt)
+                def info(self, fmt, *a, **k): logged.append(fmt)
                 debug = error = info
-            class MI(GenericMessageInterface):
-                async def recognize_remote(self, remote): return False
-            mi = MI(Mman(), Log(), None)
-            try: mi._received_datagram("peer", bytes(bx(inp["data"]))); raised = None
+            data = bytes(bx(inp["data"]))
+            try:
+                if inp.get("site", "generic_udp") == "generic_udp":
+                    from aiocoap.transports.generic_udp import GenericMessageInterface
+                    class MI(GenericMessageInterface):
+                        async def recognize_remote(self, remote): return False
+                    MI(Mman(), Log(), None)._received_datagram("peer", data)
+                else:
+                    # udp6.py datagram_msg_received, run on a stand-in for self (no socket): log, _ctx are all it touches
+                    from aiocoap.transports.udp6 import MessageInterfaceUDP6
+                    class Stub: pass
+                    st = Stub(); st.log = Log(); st._ctx = Mman()
+                    MessageInterfaceUDP6.datagram_msg_received(st, data, [], 0, ("::1", 5683, 0, 0))
+                raised = None
             except Exception as e: raised = exn(e)
-            return {"dispatched": got, "logged": logged, "raised": raised}
+            dropped = [f for f in logged if "unparsable" in f.lower()]
+            other = [f for f in logged if "unparsable" not in f.lower() and "pktinfo" not in f]
+            outcome = ("escaped:" + raised[4:]) if raised else "dispatched" if len(got) == 1 and not dropped else "dropped" if len(dropped) == 1 and not got else "confused"
+            return {"outcome": outcome, "message": got[0] if outcome == "dispatched" else None, "n_dispatched": len(got), "n_dropped": len(dropped), "other_log": other}
         if stream == "ext_field":
             from aiocoap import options as o
             try:
@@ -663,7 +745,9 @@ class C01(fw.Property):
         if stream == "encode":
             return "(encode_trace %s, bv (rfc_encode (canonical %s)))" % (g_msg(inp), g_msg(inp))
         if stream in ("decode", "decode_mut"):
-            return "decode_trace %s" % gbx(inp["data"])
+            return "decode_trace_spec %s" % gbx(inp["data"])
+        if stream == "transport":
+            return "received_trace handles_%s %s" % (inp["site"], gbx(inp["data"]))
         if stream == "ext_field":
             if inp["op"] == "write": return "write_extended_field_value %s" % gz(inp["value"])
             return "read_extended_field_value %s %s" % (gz(inp["value"]), fw.gbytes(inp["raw"]))
@@ -692,8 +776,17 @@ class C01(fw.Property):
             enc, dec, rfc = p          # Coq prints ((a, b), c) as (a, b, c)
             return {"rfc": bview(rfc) if legal_message(inp) else None, "encoded": m(enc, bview), "decoded": m(dec, mview)}
         if stream in ("decode", "decode_mut"):
-            d, e, r = p
-            return {"decoded": m(d, mview), "reencoded": m(e, bview), "redecoded": m(r, mview)}
+            d, e, r, spec = p                       # ((a, b, c), d) is printed flat
+            if spec == "None": sv = None
+            else:
+                t, c, mid, tok, opts, pay = spec["a"][0]
+                sv = [t, c, mid, bview(tok), [[n, bview(v)] for n, v in opts], bview(pay)]
+            return {"decoded": m(d, mview), "reencoded": m(e, bview), "redecoded": m(r, mview), "rfc_raw": sv}
+        if stream == "transport":
+            if p == "RxDropped": return {"outcome": "dropped", "message": None, "n_dispatched": 0, "n_dropped": 1, "other_log": []}
+            if p["c"] == "RxDispatched": return {"outcome": "dispatched", "message": mview(p["a"][0]), "n_dispatched": 1, "n_dropped": 0, "other_log": []}
+            e = p["a"][0]
+            return {"outcome": "escaped:" + (e if isinstance(e, str) else repr(e)), "message": None, "n_dispatched": 0, "n_dropped": 0, "other_log": []}
         if stream == "ext_field": return m(p, lambda v: [v[0], v[1]])
         if stream == "value":
             d, e = p
@@ -705,15 +798,17 @@ class C01(fw.Property):
     def oracle(self, stream, inp, res):
         if isinstance(res, dict) and "harness_exception" in res:
             return ("C01:crash:%s:%s" % (res["harness_exception"], res["where"]), "harness could not run the implementation: %s" % res["text"])
-        if stream == "encode": return self.oracle_encode(inp, res)
+        if stream in ("encode", "encode_oracle"): return self.oracle_encode(inp, res)
         if stream in ("decode", "decode_mut", "decode_oracle"): return self.oracle_decode(inp, res)
-        if stream == "transport":
-            data = bytes(bx(inp["data"])); spec = rfc_parse(data)
-            if res["raised"] is not None: return ("C01:transport-exception:" + res["raised"][4:], "%s left _received_datagram on %s" % (res["raised"][4:], data[:40].hex()))
-            if len(res["dispatched"]) + len(res["logged"]) != 1: return ("C01:transport-not-exactly-one", "datagram %s: dispatched %d, logged %d" % (data[:40].hex(), len(res["dispatched"]), len(res["logged"])))
-            if spec is not None and spec != "not-utf8" and res["dispatched"] != [spec]:
-                return ("C01:transport-wellformed-not-dispatched", "well-formed datagram %s was not handed to the message manager as the RFC reads it" % data[:40].hex())
-            if spec == "not-utf8" and res["dispatched"]: return ("C01:invalid-utf8-accepted", "datagram %s dispatched although a string option is not UTF-8" % data[:40].hex())
+        if stream in ("transport", "transport_oracle"):
+            data = bytes(bx(inp["data"])); spec = rfc_parse(data); site = inp.get("site", "generic_udp")
+            if res["outcome"].startswith("escaped:"):
+                return ("C01:transport-exception:%s:%s" % (site, res["outcome"][8:]), "%s left the %s receive path on %s" % (res["outcome"][8:], site, data[:40].hex()))
+            if res["n_dispatched"] + res["n_dropped"] != 1 or res["outcome"] == "confused" or res["other_log"]:
+                return ("C01:transport-not-exactly-one:" + site, "datagram %s: dispatched %d, dropped-with-warning %d, other log %r" % (data[:40].hex(), res["n_dispatched"], res["n_dropped"], res["other_log"]))
+            if spec is not None and spec != "not-utf8" and res["message"] != spec:
+                return ("C01:transport-wellformed-not-dispatched:" + site, "well-formed datagram %s was not handed to the message manager as the RFC reads it" % data[:40].hex())
+            if spec == "not-utf8" and res["outcome"] == "dispatched": return ("C01:invalid-utf8-accepted", "datagram %s dispatched although a string option is not UTF-8" % data[:40].hex())
             return None
         if stream == "ext_field":
             v = inp["value"]
@@ -754,9 +849,25 @@ class C01(fw.Property):
         return None
 
     def oracle_encode(self, inp, res):
-        if not legal_message(inp): return None                     # outside the domain of the first sentence
-        want = bv(rfc_encode(inp))
         enc = res["encoded"]
+        try: want = bv(rfc_encode(inp)); legal = True
+        except Inexpressible as e:
+            want = None; legal = False; why = str(e)
+        except NotRepresentable:
+            # not in the domain of the round trip; but if only the CLASS of some option object differs from its number's, the bytes
+            # are still defined by section 3 (C01_encode_is_rfc_any_class), and inexpressible deltas / lengths must still be refused
+            try: want_any = bv(rfc_encode(inp, any_class=True))
+            except Inexpressible as e: want = None; legal = False; why = str(e)
+            except NotRepresentable: return None
+            else:
+                if isinstance(enc, str): return ("C01:encode-exception:any-class:" + enc[4:], "Message.encode raised %s although every value is legal for its option object's class" % enc[4:])
+                if enc != want_any: return ("C01:encode-not-rfc:any-class", "Message.encode produced %r, RFC 7252 section 3: %r" % (enc, want_any))
+                return None
+        if not legal:
+            # header, token and every value legal, but section 3 cannot express a delta / value length: refused, never mis-framed
+            if enc != "exn:ValueError":
+                return ("C01:inexpressible-not-rejected", "Message.encode gave %r for a message with %s (outside 0..65804); expected ValueError" % (enc, why))
+            return None
         if isinstance(enc, str):
             if enc == "exn:ValueError" and has_ext_max(inp["opts"]):
                 return ("C01:ext-field-65804-unencodable", "Message.encode raised ValueError for an option delta/length of 65804 = 65535 + 269, which RFC 7252 3.1 can express")
@@ -780,6 +891,8 @@ class C01(fw.Property):
         if spec is not None:
             f = view_diff(d, spec)
             if f is not None: return ("C01:wellformed-misparsed:" + f, "datagram %s parsed as %r, RFC 7252 section 3 reads %r" % (data[:40].hex(), d, spec))
+        if res.get("reencode_as_parsed", "exn:AssertionError") not in ("exn:AssertionError", "ok"):
+            return ("C01:parsed-not-encodable-as-is:" + res["reencode_as_parsed"][4:], "encode() of the message as parsed (direction INCOMING) raised %s, not the direction assertion" % res["reencode_as_parsed"][4:])
         e = res["reencoded"]
         if isinstance(e, str):
             if e == "exn:ValueError" and ext_max_in_datagram(data):
@@ -796,8 +909,8 @@ class C01(fw.Property):
         return None
 
     def nontrivial(self, stream, inp, res):
-        if stream == "encode": ok = len(inp["opts"]) > 0
-        elif stream.startswith("decode") or stream == "transport":
+        if stream in ("encode", "encode_oracle"): ok = len(inp["opts"]) > 0
+        elif stream.startswith("decode") or stream.startswith("transport"):
             d = bx(inp["data"]); ok = len(d) >= 4 and d[0] // 64 == 1
         else: ok = True
         return fw.jdump([stream, inp]) if ok else None
